@@ -144,6 +144,9 @@ func c14Accesses(r *Run, rep *core.Report, reach map[*ssa.Function]bool) {
 				if x.Op.String() != "*" {
 					return
 				}
+				if refs := x.Referrers(); refs != nil && len(*refs) == 0 {
+					return // dead load (go/ssa materialises the operand of 'range array' although the language does not evaluate it)
+				}
 				a := core.Addr(x.X)
 				if !r.M.IsSharedWord(a) {
 					return
